@@ -392,6 +392,7 @@ func init() {
 					ws := []string{" ", "\n", "\t", "\r\n ", ""}[(j+k+c.Idx)%5]
 					docs = append(docs, emptyAtDepth(steps, j, "{", ws, "}"), emptyAtDepth(steps, j, "[", ws, "]"))
 				}
+				docs = append(docs, tailoredDoc(r, steps, 2))
 				if arrayOnly {
 					docs = append(docs, `[[1],[ ],[2,[\n],[ 3 ]]]`, `[ ]`, `[[ ]]`, `[[],[ ]]`, `[[[]],[[ ]],[[\t],[4]]]`, ` [ [ 1 , 2 ] , [ ] , [ [ ] , [ 5 ] ] ] `, `[[1,2],[],[[],[5]]]`)
 				}
@@ -619,6 +620,17 @@ func tailoredDoc(r *rand.Rand, steps []pstep, variant int) string {
 			inner := string(q) + ":" + cur
 			if variant == 1 {
 				inner = `"zz":0,` + inner + `,"x":{` + string(q) + `:"deeper"}`
+			}
+			if variant == 2 {
+				// decoys whose names equal the selector only under case folding, before and behind it
+				up, lo := strings.ToUpper(st.name), strings.ToLower(st.name)
+				for _, d := range []string{up, lo} {
+					if d != st.name {
+						dq, _ := stdjson.Marshal(d)
+						inner = string(dq) + `:"decoy",` + inner + `,` + string(dq) + `:{"decoy":2}`
+						break
+					}
+				}
 			}
 			cur = "{" + inner + "}"
 			if st.kind == 'r' && variant == 1 {
